@@ -427,6 +427,9 @@ func DefaultReqs(g *Gen, kind string, doc interface{}) []Req {
 		{Method: "GET", Path: "", Resp: 0},
 		{Method: "HEAD", Path: "/", Headers: [][2]string{{"Cookie", "a=b"}}, Resp: 1},
 	}
+	if kind == "Proxy" || kind == "Pipeline" || kind == "GlobalFilter" {
+		reqs = append(reqs, ProxyReqs()...)
+	}
 	if findSignature(doc) != nil {
 		// syntactically complete, correctly signed requests: verification runs to the end
 		reqs = append(reqs, Req{Method: "GET", Path: "/signed?x=1", Resp: 0, Sign: true},
@@ -657,12 +660,20 @@ func stubSend(r *http.Request, _ *http.Client) (*http.Response, error) {
 		code = 503
 	}
 	body := "hello from the stubbed backend, hello from the stubbed backend"
-	return &http.Response{
+	if strings.Contains(r.URL.Path, "empty") {
+		body = ""
+	}
+	resp := &http.Response{
 		StatusCode: code, Proto: "HTTP/1.1", ProtoMajor: 1, ProtoMinor: 1,
 		Header:        http.Header{"Content-Type": {"text/plain"}, "X-Backend": {"stub"}},
 		Body:          io.NopCloser(strings.NewReader(body)),
 		ContentLength: int64(len(body)), Request: r,
-	}, nil
+	}
+	if strings.Contains(r.URL.Path, "stream") {
+		resp.ContentLength = -1 // chunked / unknown length: a streamed back-end response
+		resp.TransferEncoding = []string{"chunked"}
+	}
+	return resp, nil
 }
 
 func init() {
